@@ -397,16 +397,19 @@ def _all_axes(extra_figs):
     return out
 
 
-def _call(fn, *a, axmode=None, **k):
+def _call(fn, *a, axmode=None, fresh=True, leave_open=False, **k):
     """run a plotting call; -> (axes-read | None, exception | None); figures are closed.
     With `axmode` the callee is handed fig=/ax=; the read then also tells whether the returned
     figure/axes are the ones handed in, and how many data artists were left on ANY other axes."""
     plt = _plt()
-    plt.close("all")
+    if fresh:  # otherwise the charts of the previous call are still on screen, as in an interactive session
+        plt.close("all")
     fig0 = ax0 = None
     if axmode is not None:
         fig0, ax0 = _make_axes(axmode)
         k = dict(k, fig=fig0, ax=ax0)
+    nart = lambda x: len(x.lines) + len(x.collections) + len(x.containers)  # noqa: E731
+    before = {id(x): nart(x) for x in _all_axes([fig0])}  # charts still open from earlier calls: their artists are theirs
     try:
         fig, ax = fn(*a, **k)
     except Exception as e:  # noqa: BLE001
@@ -416,11 +419,12 @@ def _call(fn, *a, axmode=None, **k):
         rd = read_axes(ax)
         rd["xlim"] = tuple(ax.get_xlim())
         rd["same_axes"] = ax0 is None or (ax is ax0 and fig is fig0)
-        rd["foreign"] = sum(
-            len(x.lines) + len(x.collections) + len(x.containers) for x in _all_axes([fig0, getattr(ax, "figure", None)]) if x is not ax
-        )
+        rd["foreign"] = sum(nart(x) - before.get(id(x), 0) for x in _all_axes([fig0, getattr(ax, "figure", None)]) if x is not ax)
+        # a chart drawn on axes that already carried an earlier chart is not a chart of its own
+        rd["reused_axes"] = before.get(id(ax), 0) > 0 and ax is not ax0
     finally:
-        plt.close("all")
+        if not leave_open:
+            plt.close("all")
     return rd, None
 
 
@@ -693,6 +697,9 @@ def oracle_stab(ctx, V, where, call, T, step, hide, mpe_fn, cov, prefix="", extr
     if rd["foreign"]:
         V(f"{prefix}stab-foreign-axes", f"{where}: {rd['foreign']} data artists drawn on axes other than the diagram's", inp)
         return
+    if rd.get("reused_axes"):
+        V(f"{prefix}stab-drawn-over-earlier-chart", f"{where}: the diagram was drawn on axes that still carried an earlier chart (markers of both are displayed)", inp)
+        return
     Fn, Lab = T["Fn"], T["Lab"]
     # the ordinate must be the order value the extraction accepts for the pole = its column index
     exp_s = expected_markers(Fn, None, Lab, 1, lambda r, c: c)
@@ -889,6 +896,11 @@ def oracle(ctx, scale):
     # (1) functions — on their own figure or on an axes handed in (any of the ways a caller may hold one)
     for k in range(ctx.n(30, 600) * scale):
         T = gen_tables(ctx)
+        if rng.random() < 0.4:
+            # the tables' values are what is displayed, however each of them is stored (independently of the others)
+            from common import relayout
+
+            T = {kk: (relayout(ctx, v, 0.6, ("fortran", "strided", "readonly"))[0] if isinstance(v, np.ndarray) else v) for kk, v in T.items()}
         hide = rng.random() < 0.5
         lim = gen_limits(ctx)
         step = rng.choice([1, 1, 1, 2, 3])
@@ -928,8 +940,10 @@ def oracle(ctx, scale):
         a = _mk_ssi(cls, T, 1, with_cov=True, ordmin=ordmin)
         nm = cls.__name__
         ex = {"ordmin": ordmin}
-        oracle_stab(ctx, V, f"{nm}.plot_stab", lambda: _call(a.plot_stab, freqlim=lim, hide_poles=hide), T, 1, hide, _cls_mpe_fn(a), T["cov"], prefix="ssi-", extra=ex)
-        oracle_cluster(ctx, V, f"{nm}.plot_cluster", lambda: _call(a.plot_cluster, freqlim=lim, hide_poles=hide), T, hide, prefix="ssi-", extra=ex)
+        oracle_stab(ctx, V, f"{nm}.plot_stab", lambda: _call(a.plot_stab, freqlim=lim, hide_poles=hide, leave_open=True), T, 1, hide, _cls_mpe_fn(a), T["cov"], prefix="ssi-", extra=ex)
+        oracle_cluster(ctx, V, f"{nm}.plot_cluster", lambda: _call(a.plot_cluster, freqlim=lim, hide_poles=hide, fresh=False, leave_open=True), T, hide, prefix="ssi-", extra=ex)
+        # the same object's chart again while the first ones are still open (other option): a chart of its own
+        oracle_stab(ctx, V, f"{nm}.plot_stab", lambda: _call(a.plot_stab, freqlim=lim, hide_poles=not hide, fresh=False), T, 1, not hide, _cls_mpe_fn(a), T["cov"], prefix="ssi-open-", extra=ex)
         cls = rng.choice(pl_cls)
         b = _mk_plscf(cls, T, ordmin=ordmin)
         nmb = cls.__name__
